@@ -87,7 +87,7 @@ class Observer:
         self.judged += 1
         self._case_judged += 1
         self.violation_counts[key] += 1
-        if len(self.violations) < self.MAX_VIOLATIONS:
+        if self.violation_counts[key] <= 4 and len(self.violations) < self.MAX_VIOLATIONS:
             self.violations.append({
                 'property': self.prop, 'key': key, 'msg': str(msg)[:2000],
                 'detail': _jsonable(detail), 'case': self.case})
